@@ -9,9 +9,12 @@ from .. import core, gitskin, lexer, tlc
 from ..core import log
 
 PID = "C16"
-PATHS_ALL = ["src/co-7-fig.rs", "a b/c d.txt", "Makefile", "x.y/z_1.tar.gz", "Make-7-file", "dir=1/f:2.rs"]
-PLAIN_OK = {0, 1, 2, 3}          # the unambiguous class for plain-text grep output (see the statement)
-CODES = ["  let foo = 1;", "\tfoo(bar)", "foo", "x: foo - 7 = foo", "foo 世界 foo", "", "\t\tif foo { é }", "no match here"]
+PATHS_ALL = ["src/co-7-fig.rs", "a b/c d.txt", "Makefile", "x.y/z_1.tar.gz", "Make-7-file", "dir=1/f:2.rs",
+             # paths that continue another path after a separator character (both inside the plain-text guarantee)
+             "Makefile-win.mk", "x.y/z_1.tar.gz=old.bak"]
+PLAIN_OK = {0, 1, 2, 3, 6, 7}          # the unambiguous class for plain-text grep output (see the statement)
+CODES = ["  let foo = 1;", "\tfoo(bar)", "foo", "x: foo - 7 = foo", "foo 世界 foo", "", "\t\tif foo { é }",
+         "  \tint foo;", " \t \tfoo = foo", "no match here"]
 RS = ["--no-gitconfig", "--syntax-theme", "none", "--grep-file-style", "35", "--grep-line-number-style", "36",
       "--grep-match-word-style", "37", "--grep-match-line-style", "45", "--grep-context-line-style", "38",
       "--grep-header-decoration-style", "none", "--grep-header-file-style", "46", "--hunk-header-style", "25 file line-number",
@@ -112,8 +115,10 @@ def run(tier):
         r2 = random.Random(core.seed() * 7 + i)
         fmt = ["colour", "plain", "json", "json-stdin"][i % 4]
         style = ["ripgrep", "classic"][(i // 4) % 2]
-        pool = [0, 1, 2, 3] if fmt == "plain" else list(range(len(PATHS_ALL)))
+        pool = sorted(PLAIN_OK) if fmt == "plain" else list(range(len(PATHS_ALL)))
         pa, pb = r2.sample(pool, 2)
+        if i % 5 == 0:
+            pa, pb = r2.choice([(2, 6), (3, 7), (6, 2), (7, 3)])    # a path and its continuation, in both orders
         numbered = r2.random() < 0.8
         line = r2.randint(1, 500)
         recs = []
